@@ -339,6 +339,13 @@ func RunWorker(p *PropSpec, tier string, seed int64, shard, n int, budget time.D
 	os.Stdout.Write([]byte("\n"))
 }
 
+// beats counts calls into the code under test (or the reference) that have returned; together with the case
+// counter it is the watchdog's notion of progress, so that one large case made of many calls is not a hang.
+var beats atomic.Int64
+
+// Beat records that a call into the code under test or into a reference has returned.
+func Beat() { beats.Add(1) }
+
 func watchdog(c *Ctx, done chan struct{}) {
 	last := int64(-1)
 	stuck := 0
@@ -349,8 +356,8 @@ func watchdog(c *Ctx, done chan struct{}) {
 		case <-done:
 			return
 		case <-t.C:
-			n := c.curN.Load()
-			if n == last && n > 0 {
+			n := c.curN.Load() + beats.Load()
+			if n == last && c.curN.Load() > 0 {
 				stuck++
 			} else {
 				stuck = 0
@@ -366,7 +373,7 @@ func watchdog(c *Ctx, done chan struct{}) {
 				}
 				fmt.Fprintf(os.Stderr, "WATCHDOG %s\n", why)
 				r := Result{Counters: map[string]int64{}, Exhaustive: false, Caps: []string{"watchdog:" + why}}
-				v := Violation{Property: c.Prop, Kind: why, Case: cur, Detail: "worker watchdog: case did not finish within 90s or heap > 6GiB"}
+				v := Violation{Property: c.Prop, Kind: why, Case: cur, Detail: "worker watchdog: no call into the code under test returned for 90 s while this case was running, or heap > 6GiB"}
 				v.Finish()
 				r.Violations = []Violation{v}
 				out, _ := json.Marshal(r)
